@@ -16,6 +16,7 @@ import (
 	"io"
 	"math/rand/v2"
 	"net/http"
+	"os"
 	"sync"
 	"testing"
 	"testing/synctest"
@@ -40,6 +41,15 @@ func vsrvC16Handler(s *vsrvSession, w http.ResponseWriter, r *http.Request) {
 	var id uint32
 	if rw, ok := w.(*responseWriter); ok && rw.rws != nil && rw.rws.stream != nil {
 		id = rw.rws.stream.id
+	}
+	if id%14 == 13 {
+		// holds its handler slot for 1.5 virtual seconds whatever happens to the stream
+		// (a handler is not obliged to watch its context): after a client reset the stream
+		// slot is free again while the handler slot is not
+		// (staggered by id, so that the sleepers do not all finish at the same virtual instant)
+		time.Sleep(time.Duration(1000+(id/14)%40*25) * time.Millisecond)
+		w.WriteHeader(204)
+		return
 	}
 	switch (id / 2) % 6 {
 	case 0:
@@ -243,7 +253,7 @@ func vsrvC16Mutate(rng *rand.Rand, fs [][]byte, notes *[]string) []byte {
 }
 
 // vsrvC16Flood builds a flood of n frames of one kind after a valid opening.
-func vsrvC16Flood(rng *rand.Rand, kind string, n int) []byte {
+func vsrvC16Flood(rng *rand.Rand, kind string, n int, adv uint32) []byte {
 	out := h2ref.AppendSettings(nil)
 	out = h2ref.AppendSettingsAck(out)
 	get := func(id uint32, end bool) []byte {
@@ -305,6 +315,24 @@ func vsrvC16Flood(rng *rand.Rand, kind string, n int) []byte {
 		for i := 0; i < n; i++ {
 			out = h2ref.AppendFrame(out, h2ref.Frame{Type: 0x77, StreamID: uint32(rng.IntN(5)), Payload: vsrvRandBytes(rng, rng.IntN(20))})
 		}
+	case "reset-then-open":
+		// Fill every handler slot with handlers of streams the client resets at once (they
+		// sleep on regardless), then open streams that stay open: their handlers must wait
+		// for a slot, and when the sleepers finish only as many may start as slots are free.
+		id := uint32(13)
+		for round, rounds := 0, 1+rng.IntN(3); round < rounds; round++ {
+			for i := uint32(0); i < adv; i++ {
+				out = append(out, get(id, true)...)
+				out = h2ref.AppendRSTStream(out, id, h2ref.ErrCancel)
+				id += 14
+			}
+			// more sleepers, left open: they wait for a handler slot
+			for i, m := uint32(0), 1+uint32(rng.IntN(int(min(adv, 8))+1)); i < m && i < adv; i++ {
+				out = append(out, get(id, true)...)
+				id += 14
+			}
+			out = h2ref.AppendPing(out, false, [8]byte{byte(round)})
+		}
 	case "over-limit-opens": // streams beyond MAX_CONCURRENT_STREAMS: each refused with RST_STREAM
 		for i := 0; i < n; i++ {
 			out = append(out, get(uint32(7+12*i), true)...) // ids ≡ 7 mod 12 → (id/2)%6 == 3: parking handler
@@ -314,7 +342,7 @@ func vsrvC16Flood(rng *rand.Rand, kind string, n int) []byte {
 }
 
 var vsrvC16FloodKinds = []string{"ping", "settings", "rst-fresh", "empty-continuation", "empty-data", "window-update",
-	"zero-window-update", "data-on-closed", "malformed-headers", "priority", "unknown-type", "over-limit-opens"}
+	"zero-window-update", "data-on-closed", "malformed-headers", "priority", "unknown-type", "over-limit-opens", "reset-then-open"}
 
 var (
 	vsrvC16MaxMu     sync.Mutex
@@ -647,7 +675,7 @@ func vsrvC16Session(r *verifrt.R, c *verifrt.Case, kind string) {
 			n = vsrvPick(rng, 50, 2000, maxQueuedControlFrames+1000)
 		}
 		d.Notes = append(d.Notes, fmt.Sprintf("flood of %d", n))
-		input = append(append([]byte(nil), preface...), vsrvC16Flood(rng, fk, n)...)
+		input = append(append([]byte(nil), preface...), vsrvC16Flood(rng, fk, n, d.Adv)...)
 		bulk = true
 		d.Cap = vsrvPick(rng, 0, 4096, 4096, 65536) // mostly a client that does not read
 	}
@@ -679,6 +707,9 @@ func vsrvC16Session(r *verifrt.R, c *verifrt.Case, kind string) {
 	}
 	s.report(r, c)
 	s.mu.Lock()
+	if os.Getenv("VERIF_DEBUG") != "" {
+		fmt.Printf("C16 DEBUG %s adv=%d cap=%d hmax=%d starts=%d\n%s\n", kind, d.Adv, d.Cap, s.hMax, s.hStarts, s.history(120))
+	}
 	nt := s.srvFrames > 2 || s.hStarts > 0
 	r.Event("kind_"+kind, 1)
 	r.Event("outcome_"+d.Outcome, 1)
@@ -706,7 +737,7 @@ func vsrvC16Session(r *verifrt.R, c *verifrt.Case, kind string) {
 func TestVerif_C16(t *testing.T) {
 	r := verifrt.Start(t, "C16")
 	defer r.Finish()
-	r.SetRule("one case = one server connection fed a generated client byte stream in PRNG chunks (with quiescent points, virtual sleeps, and for floods a client that does not read): random bytes without / after a valid preface, random frames (valid 9-byte headers, random type/flags/stream/payload), protocol-valid open-loop sessions, the same sessions damaged by 1-3 of {bit flips, length lie, swap, duplicate, delete, retype, restream, reflag, scramble payload} plus truncation, and frames on the parsers' length edges (padded HEADERS/DATA/PUSH_PROMISE with and without priority octets whose Pad Length is within a few octets of the payload length; fixed-size frames one octet short or long), and 12 kinds of floods (PING, SETTINGS, HEADERS+RST_STREAM, empty CONTINUATION, empty DATA, WINDOW_UPDATE, zero WINDOW_UPDATE, DATA on closed stream, malformed HEADERS, PRIORITY, unknown type, over-limit opens; 50-25000 frames). non-trivial = the server got past the preface far enough to emit more than its two opening frames or to start a handler; distinct = hash of the input bytes")
+	r.SetRule("one case = one server connection fed a generated client byte stream in PRNG chunks (with quiescent points, virtual sleeps, and for floods a client that does not read): random bytes without / after a valid preface, random frames (valid 9-byte headers, random type/flags/stream/payload), protocol-valid open-loop sessions, the same sessions damaged by 1-3 of {bit flips, length lie, swap, duplicate, delete, retype, restream, reflag, scramble payload} plus truncation, and frames on the parsers' length edges (padded HEADERS/DATA/PUSH_PROMISE with and without priority octets whose Pad Length is within a few octets of the payload length; fixed-size frames one octet short or long), and 13 kinds of floods (handlers that outlive a reset followed by opens, PING, SETTINGS, HEADERS+RST_STREAM, empty CONTINUATION, empty DATA, WINDOW_UPDATE, zero WINDOW_UPDATE, DATA on closed stream, malformed HEADERS, PRIORITY, unknown type, over-limit opens; 50-25000 frames). non-trivial = the server got past the preface far enough to emit more than its two opening frames or to start a handler; distinct = hash of the input bytes")
 	r.Assume("no-panic = serve-loop panic hook + recovered harness goroutines + child exit status; 'keeps serving or ends the connection' = after the input, all server timers (read from the package constants) and a full read of the server's output: connection closed with the connection goroutine finished, or a probe PING answered (a partial trailing frame is first completed with zero bytes); bounds are sampled on the serve goroutine through serveMsgCh at quiescent points")
 
 	kinds := []string{"random-nopreface", "random-afterpreface", "random-frames", "random-frames", "mutated", "mutated", "mutated", "mutated", "valid"}
@@ -718,7 +749,7 @@ func TestVerif_C16(t *testing.T) {
 	r.CasesParallel("session", r.N(400, 16000), 0, func(c *verifrt.Case) {
 		vsrvC16Session(r, c, kinds[c.Index%len(kinds)])
 	})
-	r.CasesParallel("flood", r.N(36, 600), 0, func(c *verifrt.Case) {
+	r.CasesParallel("flood", r.N(52, 780), 0, func(c *verifrt.Case) {
 		vsrvC16Session(r, c, "flood:"+vsrvC16FloodKinds[c.Index%len(vsrvC16FloodKinds)])
 	})
 	r.CasesParallel("boundary", r.N(600, 12000), 0, func(c *verifrt.Case) {
